@@ -208,7 +208,10 @@ def rule_r4(ctx):
     ncase = len([b for b in f.blocks.values() if b.label and b.label.get("kind") == "case"])
     if default and ncase >= 6:
         sets = [t for t in f.assigns() if t.b == default[0].id or (t.b, t.i) in f.reach((default[0].id, 0))]
-        if any("NNG_EPROTO" in show(f.expand(t.node["rhs"])) for t in sets):
+        dreach = f.reach((default[0].id, 0))
+        rets = [x for x in f.sites() if x.node.get("k") == "ret" and x.node.get("e") is not None and (x.b, x.i) in dreach and
+                "NNG_EPROTO" in show(f.expand(x.node["e"]))]
+        if any("NNG_EPROTO" in show(f.expand(t.node["rhs"])) for t in sets) or rets:
             r.ob(f, "%d states handled, default fails with NNG_EPROTO" % ncase)
         else:
             ctx.fail(r, f, "default state accepted", f.line, "an unknown decoder state does not fail with NNG_EPROTO")
